@@ -121,6 +121,15 @@ namespace ip {
 
 		if (m_queue.empty()) return;
 
+		// the queue may have been replaced (by cancel() followed by new lookups)
+		// since the timer fired. Don't complete a lookup before it's due
+		if (m_queue.front().completion_time > chrono::high_resolution_clock::now())
+		{
+			m_timer.expires_at(m_queue.front().completion_time);
+			m_timer.async_wait(aux::make_malloc(std::bind(&basic_resolver::on_lookup, this, _1)));
+			return;
+		}
+
 		typename queue_t::value_type v = std::move(m_queue.front());
 		m_queue.erase(m_queue.begin());
 
